@@ -944,6 +944,10 @@ class Exec:
                     if ev is False:
                         continue
                     if cfg.diverges(tgt):
+                        # an edge into code that can only panic (assert! / debug_assert! / unreachable!): recorded so that C12 can
+                        # show the branch infeasible from the invariants; the value computation continues on the other edges
+                        self.sites.append({"fn": fn.label, "path": fn.path, "block": b, "what": "diverge-edge", "kind": "panic-branch", "operands": {"cond": c},
+                                           "facts": dict(st.facts), "span": t["span"], "target": tgt, "root_depth": self.depth})
                         continue
                     feas.append((c, tgt, ev))
                 if not feas:
@@ -1036,13 +1040,28 @@ class Exec:
         name = callees.callee_name(callee)
         res = None
         if cls == "local":
-            g = self.F.resolve_callee(callee)
+            g = self.F.resolve_callee(callee, getattr(self, "subst_stack", [None])[-1] if getattr(self, "subst_stack", None) else None)
             if g is None:
                 raise Unsupported("local callee without MIR: " + name)
             recv = args[0][1] if args and isinstance(args[0], tuple) and args[0][0] == "ref" and isinstance(args[0][1][0], str) else None
             how = self.policy.decide(g, recv, self.depth)
             if how == "inline":
-                res = self.inline(st, g, args)
+                # type parameters of g as instantiated at this call site (the method's own parameters are the last type arguments)
+                gp = [p_["name"] for p_ in (g.d.get("generics") or {}).get("params", []) if p_.get("kind") == "Type"]
+                ta = callee.get("targs") or []
+                cur = (getattr(self, "subst_stack", None) or [None])[-1] or {}
+                sub_ = {}
+                for nm_, ty_ in zip(gp[::-1], ta[::-1]):
+                    if ty_.get("k") == "param" and ty_.get("name") in cur:
+                        ty_ = cur[ty_["name"]]
+                    sub_[nm_] = ty_
+                if not hasattr(self, "subst_stack"):
+                    self.subst_stack = []
+                self.subst_stack.append(sub_)
+                try:
+                    res = self.inline(st, g, args)
+                finally:
+                    self.subst_stack.pop()
             elif how == "step":
                 n = sum(1 for s in self.flat_steps(st.steps) if s[1] == pstr(recv))
                 node = ("step", pstr(recv), g.label, tuple(args[1:]), n)
@@ -1111,6 +1130,65 @@ class Exec:
             return mk_gamma(("==", cu(0), ("discr", v)), on_none(), on_some(payload))
         return map_leaves(x, leaf)
 
+    def cases_st(self, st, cases):
+        """cases: [(cond term or None, thunk(state) -> value)] — mutually exclusive and exhaustive.  Each thunk runs on a fork of
+        `st` under its condition (closures may write to state); values and store changes are merged with gammas."""
+        live = []
+        for c, thunk in cases:
+            ev = None if c is None else (eval_lit(c, st.facts) if isinstance(c, tuple) and c[0] != "gamma" else None)
+            if ev is False:
+                continue
+            s2 = st.fork()
+            if c is not None and ev is None:
+                self.add_fact(s2, c, True)
+            live.append((c, thunk(s2), s2))
+            if ev is True or c is None:
+                break
+        if not live:
+            return BOT
+        val = live[-1][1]
+        for c, v, _ in reversed(live[:-1]):
+            val = mk_gamma(c, v, val)
+        keys = set()
+        for _, _, s2 in live:
+            for k, v in s2.store.m.items():
+                if isinstance(k[0], str) and st.store.m.get(k) != v:
+                    keys.add(k)
+        for k in keys:
+            def cur(s_):
+                r_ = self._try_read(s_, k)
+                return r_ if r_ is not None else ("pre", pstr(k))
+            nv = cur(live[-1][2])
+            for c, _, s2 in reversed(live[:-1]):
+                nv = mk_gamma(c, cur(s2), nv)
+            st.store.write(k, nv)
+        st.asserts = live[-1][2].asserts
+        return val
+
+    def option_cases_st(self, st, x, on_some, on_none):
+        """like option_cases, but the handlers take a state and may write to it (closures capturing `self`)"""
+        cases = []
+        for conds, leaf in leaves(x):
+            pc = None
+            for a_, pol_ in conds:
+                lit_ = a_ if pol_ else mk_not(a_)
+                pc = lit_ if pc is None else self.mk_and(pc, lit_)
+
+            def conj(extra):
+                if extra is None:
+                    return pc
+                return extra if pc is None else self.mk_and(pc, extra)
+            if isinstance(leaf, tuple) and leaf[0] == "adt" and leaf[2][1] == "Some":
+                cases.append((conj(None), lambda s_, leaf=leaf: on_some(s_, leaf[3][0][1])))
+            elif isinstance(leaf, tuple) and leaf[0] == "adt" and leaf[2][1] == "None":
+                cases.append((conj(None), lambda s_: on_none(s_)))
+            else:
+                isnone = ("==", cu(0), ("discr", leaf))
+                payload = self.project(leaf, ("@Some", "0"), None)
+                cases.append((conj(isnone), lambda s_: on_none(s_)))
+                cases.append((conj(mk_not(isnone)), lambda s_, payload=payload: on_some(s_, payload)))
+        return self.cases_st(st, cases)  # exhaustive: the last live case serves as the default arm of the merge
+
     def call_closure(self, st, clo, call_args):
         if not (isinstance(clo, tuple) and clo[0] == "closure"):
             raise Unsupported("call of a non-closure value")
@@ -1149,22 +1227,40 @@ class Exec:
             return self.option_cases(x, lambda v: v, lambda: args[1])
         if which == "unwrap_or_default":
             return self.option_cases(x, lambda v: v, lambda: cf(0.0))
+        def fcall(state, f, a):
+            """apply a closure or a function item"""
+            if isinstance(f, tuple) and f[0] == "fn":
+                g = self.F.fn_by_path.get(f[1])
+                if g is not None:
+                    return self.inline(state, g, list(a))
+                return self.std_call(state, {"path": f[1], "path_args": f[1]}, f[1], list(a), t)
+            return self.call_closure(state, f, list(a))
         if which == "unwrap_or_else":
-            return self.option_cases(x, lambda v: v, lambda: self.call_closure(st, args[1], []))
+            return self.option_cases_st(st, x, lambda s_, v: v, lambda s_: fcall(s_, args[1], []))
         if which == "map_or":
-            return self.option_cases(x, lambda v: self.call_closure(st, args[2], [v]), lambda: args[1])
+            return self.option_cases_st(st, x, lambda s_, v: fcall(s_, args[2], [v]), lambda s_: args[1])
         if which == "map_or_else":
-            return self.option_cases(x, lambda v: self.call_closure(st, args[2], [v]), lambda: self.call_closure(st, args[1], []))
+            return self.option_cases_st(st, x, lambda s_, v: fcall(s_, args[2], [v]), lambda s_: fcall(s_, args[1], []))
         if which == "map":
-            return self.option_cases(x, lambda v: some(self.call_closure(st, args[1], [v])), lambda: none)
+            return self.option_cases_st(st, x, lambda s_, v: some(fcall(s_, args[1], [v])), lambda s_: none)
+        if which == "and_then":
+            return self.option_cases_st(st, x, lambda s_, v: fcall(s_, args[1], [v]), lambda s_: none)
+        if which == "filter":
+            def keep(s_, v):
+                r_ = self.nclo = getattr(self, "nclo", 0) + 1
+                root = ("L", -self.nclo, 0)
+                s_.store.write((root,), v)
+                c_ = fcall(s_, args[1], [("ref", (root,), None)])
+                return mk_gamma(c_, some(v), none) if not is_const(c_) else (some(v) if c_[2] else none)
+            return self.option_cases_st(st, x, keep, lambda s_: none)
         if which in ("ok_or", "ok_or_else"):
             ok = lambda v: ("adt", "std::result::Result", (0, "Ok"), (("0", v),), True)
             err = lambda e: ("adt", "std::result::Result", (1, "Err"), (("0", e),), True)
             if which == "ok_or":
                 return self.option_cases(x, ok, lambda: err(args[1]))
-            return self.option_cases(x, ok, lambda: err(self.call_closure(st, args[1], [])))
+            return self.option_cases_st(st, x, lambda s_, v: ok(v), lambda s_: err(fcall(s_, args[1], [])))
         if which == "is_some_and":
-            return self.option_cases(x, lambda v: self.call_closure(st, args[1], [v]), lambda: FALSE)
+            return self.option_cases_st(st, x, lambda s_, v: fcall(s_, args[1], [v]), lambda s_: FALSE)
         return None
 
     def std_call(self, st, callee, name, args, t):
@@ -1245,7 +1341,7 @@ class Exec:
                     return x
                 return ("from_residual", x)
             return map_leaves(args[0], fr_)
-        m = re.search(r"Option(?:::<.*>)?::(replace|take|unwrap_or|unwrap_or_default|unwrap_or_else|map_or|map_or_else|map|is_some_and|get_or_insert|ok_or|ok_or_else)$", n)
+        m = re.search(r"Option(?:::<.*>)?::(replace|take|unwrap_or|unwrap_or_default|unwrap_or_else|map_or|map_or_else|map|and_then|filter|is_some_and|get_or_insert|ok_or|ok_or_else)$", n)
         if m:
             r_ = self.option_combinator(st, m.group(1), args, t)
             if r_ is not None:
@@ -1292,6 +1388,21 @@ class Exec:
         if re.search(r"iter::Iterator>::enumerate$|iter::Iterator::enumerate$", callees.strip_turbofish(n)):
             return ("enumerate", args[0])
         nn = callees.strip_turbofish(n)
+        if re.search(r"<impl \[[^\]]*\]>::split_at(_mut)?$", nn) and len(args) == 2 and isinstance(args[0], tuple):
+            base = args[0]
+            if base[0] == "ref" and base[2] is None:
+                arr_ = self.read_path(st, base[1])
+                base = ("sliceiter", base[1], cu(0), self.length(arr_))
+            if base[0] == "sliceiter":
+                mid = fold("+", base[2], args[1]) if base[2] != cu(0) else args[1]
+                ln_ = self.length(self.read_path(st, base[1]))
+                # mid <= len of the slice being split: recorded like a range index (start..mid within the slice)
+                self.sites.append({"fn": self.cur_fn_label, "path": self.cur_fn_path, "block": None, "what": "slice-index", "kind": "RangeTo",
+                                   "operands": {"start": base[2], "end": mid, "len": ln_, "array": base[1], "upper": base[3]}, "facts": dict(st.facts), "span": t["span"], "root_depth": self.depth})
+                return ("adt", "tuple", (0, ""), (("0", ("sliceiter", base[1], base[2], mid)), ("1", ("sliceiter", base[1], mid, base[3]))), False)
+        if re.search(r"<impl \[[^\]]*\]>::len$", nn) and isinstance(args[0], tuple) and args[0][0] == "sliceiter":
+            a_ = args[0]
+            return fold("-", a_[3], a_[2]) if a_[2] != cu(0) else a_[3]
         if re.search(r"<impl \[[^\]]*\]>::len$", nn) and isinstance(args[0], tuple) and args[0][0] == "ref" and args[0][2] is None:
             return self.length(self.read_path(st, args[0][1]))
         if re.search(r"<impl \[[^\]]*\]>::iter_mut$", nn) and isinstance(args[0], tuple) and args[0][0] == "ref" and args[0][2] is None:
@@ -1343,6 +1454,13 @@ class Exec:
             return ("conv", name, args[0])
         if re.search(r"default::Default", n) and not args:
             return ("default", name)
+        if re.search(r"num::(nonzero::)?NonZero(::<.*>)?::new$", n) and len(args) == 1:
+            v = dv[0]
+            if is_const(v):
+                return ("adt", "std::option::Option", (0, "None"), (), True) if v[2] == 0 else ("adt", "std::option::Option", (1, "Some"), (("0", ("nonzero", v)),), True)
+            return mk_gamma(("==", v, cu(0)), ("adt", "std::option::Option", (0, "None"), (), True), ("adt", "std::option::Option", (1, "Some"), (("0", ("nonzero", v)),), True))
+        if re.search(r"num::(nonzero::)?NonZero(::<.*>)?::get$", n) and len(args) == 1:
+            return map_leaves(dv[0], lambda x: x[1] if isinstance(x, tuple) and x[0] == "nonzero" else ("ucall", n, (x,), 0))
         if re.search(r"<impl bool>::then(_some)?$", n) and len(args) == 2:
             some = lambda v: ("adt", "std::option::Option", (1, "Some"), (("0", v),), True)
             none = ("adt", "std::option::Option", (0, "None"), (), True)
